@@ -117,7 +117,7 @@ func (x *Exec) step(f *frame, in ssa.Instruction) {
 		} else {
 			x.abstract("make of slice of structs (elements not zero-initialised in the model)")
 		}
-		x.vals[in] = Val{T: x.define(x.fn.Name()+"_"+in.Name(), "Slice", sx("mkslice", ref, "0", ln, cp))}
+		x.vals[in] = Val{T: x.define(x.valName(in), "Slice", sx("mkslice", ref, "0", ln, cp))}
 		return
 	case *ssa.MakeChan:
 		ref := x.define(x.fresh("new"), "Int", sx("+", st.allocTop, "1"))
@@ -432,6 +432,9 @@ func (x *Exec) callWith(f *frame, in ssa.Instruction, c *ssa.CallCommon, args []
 			d := x.evalPure(callee, dargs, fvs, [2]memView{stateView{x, st}, stateView{x, x.entry}}, 1)
 			return d[0]
 		}
+	}
+	if x.inlineable(callee) {
+		return x.inlineCall(f, callee, args, fvs)
 	}
 	x.abstract("call without contract (havoc): " + callee.String())
 	x.unknownEffect(st, in.Pos())
